@@ -19,7 +19,7 @@ func rulesC02(c *Ctx) {
 		"R2.3 canResolve: next-hops always resolvable after the zero-index test; a group needs every member present in its own network instance (only-fail-inside the member loop); IPv4/IPv6/MPLS entries need their group in the named, else their own, network instance; unknown instance is an error; backup groups are never consulted",
 		"R2.4 addEntryInternal: after every install the operation leaves the pending set and all held operations are retried with the same accumulators and install stack; an unresolved operation is held when forward references are allowed and FAILED otherwise")
 	c.NotDec = append(c.NotDec, "the cascade on concrete dependency graphs (completeness follows by induction from R2.4's premises; the induction is in DESIGN.md, not mechanised)", "DisableRIBCheckFn configurations", "effects of Go map iteration order")
-	ribFamily(c, famSel{gate: true})
+	ribFamily(c, famSel{gate: true, replacedOrig: true})
 	ruleCheckWiring(c)
 	ruleCheckFnTable(c)
 	ruleCanResolve(c)
